@@ -75,6 +75,38 @@ theorem no_step_left_open_after_result_end (ops : List (Nat × Op)) (s s' : St) 
   | none => rfl
   | some c' => simp [copen, key c' hc']
 
+/-- **The step of an `lcc.Thread` is closed when the thread ends — however its target ended.**  `Thread.run` ends
+    the thread's step in a `finally` clause: the epilogue `threadEnd` is the last call of the thread whether the
+    target returned, raised an `Exception` (logged as an error first) or a `BaseException` that is no `Exception`
+    (`sys.exit()` in the thread, `GeneratorExit`, a project's own: nothing is logged).  Right after it no step of
+    that thread is open in the stream the backends receive — for every protocol-following call sequence of any
+    number of threads before it (the run model `Run.execActs` issues `threadEnd` on every exit path of a `thread`
+    act: `C07Run.thread_act_always_runs_the_epilogue`). -/
+theorem no_step_left_open_after_thread_end (ops : List (Nat × Op)) (s s' : St) (hf : Follows St.init ops)
+    (h : runOps St.init ops = .ok s) (t : Nat) (hok : okOp s t .threadEnd = true) (hs : step s t .threadEnd = .ok s') :
+    accepts false (proj t s'.fired) = some false := by
+  have hinv := sinv_runOps ops St.init s sinv_init hf h
+  have hinv' := sinv_step hinv hok hs
+  rw [hinv'.bal t]
+  congr 1
+  have key : ∀ c', getCursor s' t = some c' → c'.step = none := by
+    intro c' hc'
+    simp only [step, withCursor] at hs
+    cases hc : getCursor s t with
+    | none => rw [hc] at hs; cases hs
+    | some c =>
+      rw [hc] at hs; simp only at hs
+      cases hst : c.step with
+      | none => rw [hst] at hs; cases hs
+      | some d =>
+        rw [hst] at hs; simp only at hs; injection hs with hs; subst hs
+        rw [getCursor_setCursor] at hc'; simp at hc'; subst hc'
+        exact endStepIfAny_step_none s t c
+  rw [openFired_eq]
+  cases hc' : getCursor s' t with
+  | none => rfl
+  | some c' => simp [copen, key c' hc']
+
 /-! Non-vacuity: two workers and an `lcc.Thread` interleaved; empty step elided; all projections accepted. -/
 def sampleOps : List (Nat × Op) :=
   [(1, .startTest ["s", "a"] default), (2, .startTest ["s", "b"] default), (1, .setStep "Setup test"),
@@ -85,6 +117,18 @@ example : (match runOps St.init sampleOps with
     | .ok s => (accepts false (proj 1 s.fired), accepts false (proj 2 s.fired), accepts false (proj 10 s.fired),
                 (proj 1 s.fired).length, s.fired.length)
     | .error _ => (none, none, none, 0, 0)) = (some false, some false, some false, 3, 13) := by decide
+
+/-- an `lcc.Thread` that logged, changed its step (to an UNTITLED one, `set_step("")`, a step like any other), logged
+    again and then ended (by whatever: the epilogue is the same): its projection is accepted and closed; so is the
+    test thread's -/
+def threadEndOps : List (Nat × Op) :=
+  [(1, .startTest ["s", "a"] default), (1, .setStep "body"), (1, .threadCreate 10), (10, .threadRun),
+   (10, .log .info "in thread"), (10, .setStep ""), (10, .log .info "more"), (10, .threadEnd), (1, .log .info "after"),
+   (1, .setStep "two\nlines"), (1, .log .info "x"), (1, .endTest ["s", "a"])]
+
+example : (match runOps St.init threadEndOps with
+    | .ok s => (accepts false (proj 1 s.fired), accepts false (proj 10 s.fired), (proj 10 s.fired).length, s.fired.length)
+    | .error _ => (none, none, 0, 0)) = (some false, some false, 6, 14) := by decide
 
 /-! ## `prepare_attachment` is a context manager: two phases with arbitrary api calls in between
 
